@@ -21,7 +21,10 @@ import (
 // ---------------------------------------------------------------- representation
 
 type lEx struct {
-	K      string   // atom | if | match | pipe | lam
+	K      string   // atom | if | match | pipe | lam | grp
+	Open   string   // grp: ( [ {
+	Flds   []string // grp {: the field names
+	Elems  []*lEx   // grp: the elements (tuple / slice elements, record field values)
 	W      []string // atom: its words; lam: the words before "(fun"; match: the target
 	Post   []string // lam: words after ")"
 	Params []string // lam
@@ -170,6 +173,16 @@ func IF1(c any, then []*lSt, rest ...any) *lEx {
 	e.One = true
 	return e
 }
+
+// GRP: pre OPEN e1 SEP e2 ... CLOSE post.  open is "(" (one element: parentheses; several: a tuple), "[" (slice
+// literal) or "{" (record literal, flds = the field names).
+func GRP(open, pre, post string, flds []string, elems ...any) *lEx {
+	e := &lEx{K: "grp", Open: open, W: lWords(pre), Post: lWords(post), Flds: flds}
+	for _, x := range elems {
+		e.Elems = append(e.Elems, lxOf(x))
+	}
+	return e
+}
 func MATCH(target string, arms ...lArm) *lEx { return &lEx{K: "match", W: lWords(target), Arms: arms} }
 
 func TFN(hdr string, items ...any) *lTop { return &lTop{K: "fn", St: FN(hdr, items...)} }
@@ -284,6 +297,14 @@ func (l *lay) p(num, den int) bool {
 	return l.r.Intn(den) < num
 }
 func (l *lay) f(name string) { l.feat[name]++ }
+
+// below: a column strictly left of bd (canonical: off, which is left of every block opened inside)
+func (l *lay) below(off, bd int) int {
+	if l.o.Canon {
+		return off
+	}
+	return l.r.Intn(bd)
+}
 
 var lCommentTexts = []string{"c", "note", "let x = 1", "if a then b else c", "| A -> 1", "\"quote", "`tick", "a * b", "x / y",
 	"// nested", "/ * not a comment", "(paren", "end)", "|> pipe", "-> arrow", "= eq", "TODO: fix", "100%", "{X=1}", "[1;2]", "match u with", "\\n", "tab\there"}
@@ -612,6 +633,76 @@ func (l *lay) expr(e *lEx, off int) int {
 			l.words(e.Post)
 		}
 		return 0
+	case "grp":
+		// Layout.wf_seq: the token after an element stands on the element's line exactly when the element
+		// ends with an atom; after an element that ends with a block it stands on a later line, left of that
+		// block (a ')' may also follow the block's last token directly). A record field may be broken after
+		// its name and after '='. Nothing else may be broken (fc skips no EOL after the opening token or a separator).
+		l.words(e.W)
+		if len(e.W) > 0 {
+			l.gap()
+		}
+		l.put(e.Open)
+		closeTok, sep := ")", ","
+		switch e.Open {
+		case "[":
+			closeTok, sep = "]", ";"
+		case "{":
+			closeTok, sep = "}", ";"
+		}
+		bd := 0
+		for i, el := range e.Elems {
+			if i > 0 {
+				if bd > 0 {
+					l.f("group:separator-on-later-line")
+					l.eol()
+					l.indent(l.below(off, bd))
+				} else if l.p(1, 6) {
+					l.gap()
+				}
+				l.put(sep)
+				l.gap()
+			} else if l.p(1, 6) {
+				l.gap()
+			}
+			if e.Open == "{" {
+				l.put(e.Flds[i])
+				if l.p(1, 5) {
+					l.f("group:break-after-field-name")
+					l.eol()
+					l.indent(l.n(off + 9))
+				} else if l.p(1, 2) {
+					l.gap()
+				}
+				l.put("=")
+				if l.p(1, 5) {
+					l.f("group:break-after-field-eq")
+					l.eol()
+					l.indent(l.n(off + 9))
+				} else if l.p(1, 2) {
+					l.gap()
+				}
+			}
+			bd = l.expr(el, off)
+		}
+		switch {
+		case bd > 0 && (e.Open != "(" || l.p(1, 2)):
+			l.f("group:close-on-later-line")
+			l.eol()
+			if e.Open == "(" {
+				l.indent(l.n(off + 9))
+			} else {
+				l.indent(l.below(off, bd))
+			}
+		case l.p(1, 6):
+			l.gap()
+		}
+		l.put(closeTok)
+		if len(e.Post) > 0 {
+			l.gap()
+			l.words(e.Post)
+		}
+		return 0
 	default:
 		panic("expr kind " + e.K)
 	}
@@ -713,7 +804,12 @@ func (l *lay) top(t *lTop) {
 		l.put("=")
 		for _, c := range t.Cases {
 			l.eol()
-			l.indent(l.amt())
+			// union cases are not tested against any column (Layout.wf_root): column 0 included
+			if l.o.Canon {
+				l.indent(2)
+			} else {
+				l.indent(l.r.Intn(9))
+			}
 			l.put("|")
 			l.gap()
 			l.words(c)
@@ -912,6 +1008,20 @@ func c06Templates() [][]*lTop {
 		// 43: a union match inside a string match arm, followed by the string match's default
 		{u3(), TFN("f# (s:string) (u:U#)",
 			MATCH("s", ARM(`"a"`, MATCH("u", ARM("A# i", "i"), ARM("B# _", "1"), ARM("C#", "2"))), ARM("_", "0")))},
+		// 47: a parenthesised if / match as an argument
+		{u3(), TFN("g# (a:int) (b:int)", "a + b"),
+			TFN("f# (x:int) (u:U#)", LET("y", GRP("(", "g# (x + 1)", "", nil, IF("x > 0", B("1"), ELSE("2")))),
+				GRP("(", "g# y", "", nil, MATCH("u", ARM("A# i", "i"), ARM("B# _", "1"), ARM("C#", "0"))))},
+		// 48: tuples whose last element spans lines, unit argument, destructuring
+		{TFN("u# ()", "7"), TFN("f# (x:int)", LET("p", GRP("(", "", "", nil, "x", "x + 1", IF("x > 0", B(LET("k", "u# ()"), "k"), ELSE("2")))),
+			LET("(a, b, c)", "p"), LET("(d, _)", GRP("(", "", "", nil, "a + b", IF("c > 0", B(`"s"`), ELSE(`"t"`)))), "d + strings.Length \"\" + c")},
+		// 49: slice literals with multi-line elements
+		{TFN("f# (x:int)", LET("xs", GRP("[", "", "", nil, "x", IF("x > 0", B("1"), ELSE("2")), "x + 1", IF("x > 1", B(LET("q", "x * 2"), "q"), ELSE("0")))),
+			PIPE(GRP("[", "", "", nil, "xs", GRP("[", "", "", nil, "x")), "slice.Concat", "slice.Length"))},
+		// 50: record literals: multi-line values, breaks after a field name and after '='
+		{TRECORD("R#", false, "X#: int", "Y#: string", "Z#: int"),
+			TFN("f# (x:int)", LET("r", GRP("{", "", "", []string{"X#", "Y#", "Z#"}, IF("x > 0", B("1"), ELSE("2")), `"s"`, "x + 1")),
+				LET("q", GRP("{", "", "", []string{"Y#", "Z#", "X#"}, `"t"`, "r.Z#", IF("x > 1", B(LET("w", "r.X#"), "w"), ELSE("0")))), "q.X# + r.X#")},
 		// 45: a then-block that ends with a one-line if without else, then the else of the enclosing if: the
 		// else stands left of the block that contains the inner if, so the inner if must not take it
 		{TFN("f# (x:int)", IF("x > 0", B(`frt.Println "a"`, IF1("x > 1", B(`frt.Println "b"`))), ELSE(`frt.Println "c"`)), `frt.Println "d"`)},
@@ -1018,7 +1128,7 @@ func (g *c06Gen) expr(d int) *lEx {
 	if d <= 0 {
 		return lxOf(g.intAtom())
 	}
-	switch g.r.Intn(10) {
+	switch g.r.Intn(11) {
 	case 0, 1:
 		return lxOf(g.intAtom())
 	case 2, 3, 4:
@@ -1046,6 +1156,11 @@ func (g *c06Gen) expr(d int) *lEx {
 			arms = append(arms, lArm{lWords("_"), g.block(d - 1)})
 		}
 		return &lEx{K: "match", W: []string{"s"}, Arms: arms}
+	case 8:
+		if g.r.Intn(2) == 0 {
+			return GRP("(", "h#", "", nil, g.expr(d-1))
+		}
+		return PIPE(GRP("[", "", "", nil, g.intAtom(), g.expr(d-1), g.expr(d-1)), "slice.Length")
 	default:
 		x := g.fresh()
 		lam := &lEx{K: "lam", W: []string{"slice.Map"}, Params: []string{x},
@@ -1099,17 +1214,25 @@ package_info strings =
 func c06FoiLayout(r *Rng) string {
 	var b strings.Builder
 	amt := 0
+	first := true
 	for _, line := range strings.Split(strings.TrimRight(c06MiniFoi, "\n"), "\n") {
 		switch {
 		case strings.HasPrefix(line, "package_info"):
 			amt = 1 + r.Intn(8)
+			first = true
 			b.WriteString(line)
 		case strings.TrimSpace(line) == "":
 			if r.Intn(2) == 0 {
 				b.WriteString("   ")
 			}
 		default:
-			b.WriteString(strings.Repeat(" ", amt) + strings.TrimSpace(line))
+			// the first definition fixes the block's column; later ones may stand further right (Layout.wf_root)
+			a := amt
+			if !first {
+				a += r.Intn(4) * r.Intn(2)
+			}
+			first = false
+			b.WriteString(strings.Repeat(" ", a) + strings.TrimSpace(line))
 		}
 		switch r.Intn(8) {
 		case 0:
